@@ -52,6 +52,19 @@ pub struct Scn {
 const MIMES: [&str; 4] = ["txt", "html", "png", "json"];
 const NKEYS: usize = 32;
 
+/// The route of key number `k`: neighbouring keys differ only in the case of some letters (on a
+/// case-sensitive file system `README.txt` and `readme.txt` are different files, and to the cache
+/// they are simply different keys).
+fn route_of(k: usize) -> String {
+    let n = k / 4;
+    match k % 4 {
+        0 => format!("/files/readme{}.txt", n),
+        1 => format!("/files/README{}.txt", n),
+        2 => format!("/k{}", n),
+        _ => format!("/K{}", n),
+    }
+}
+
 fn now_secs() -> u64 {
     (sim::wall_ns().unwrap_or(0) / 1_000_000_000) as u64
 }
@@ -92,7 +105,7 @@ impl C16 {
                 hs.push(humsim::thread::spawn(move || {
                     for (i, o) in ops.iter().enumerate() {
                         let key = (o.host % 2, o.key % NKEYS);
-                        let route = format!("/k{}", key.1);
+                        let route = route_of(key.1);
                         match o.op.as_str() {
                             "set" => {
                                 // any size up to the limit, with the limit itself and limit - 1 favoured
@@ -127,7 +140,7 @@ impl C16 {
                                 let mut hits = 0;
                                 for h in 0..2 {
                                     for k in 0..NKEYS {
-                                        if let Some(it) = c.get(&format!("/k{}", k), h) {
+                                        if let Some(it) = c.get(&route_of(k), h) {
                                             total += it.data.len();
                                             hits += 1;
                                         }
@@ -400,7 +413,7 @@ impl Prop for C16 {
         }
     }
     fn rule(&self) -> &'static str {
-        "One case = a history of set/get/sweep/clock-advance operations (length <= 200, thorough <= 2000) over 32 keys x 2 hosts with sizes 0..limit, limits 0..64 KiB, time limits {0,1,60}, issued by 1..8 simulated threads through the real RwLock<Cache> (write lock for set, read lock for get, as the handlers do) under a seeded schedule, with wall-clock jumps landing just before / on / after second boundaries and age limits; every operation is stamped with a sequence number taken while the lock is held, which gives the linearisation order. One case in eight instead drives the real file_handler / directory_handler with a cache-enabled AppState over real files rewritten between requests: two file routes with the same uri on two hosts, two directory routes holding files with the same relative names and an index file each, and a file route whose uri equals a relative name inside the directories; 1..6 threads request concurrently, and sweeps look every (uri, host) up under one read lock and add the sizes up (also once after the last request). Distinct = distinct hit/miss/set/sweep pattern; non-trivial = at least three operations."
+        "One case = a history of set/get/sweep/clock-advance operations (length <= 200, thorough <= 2000) over 32 keys (in pairs that differ only in letter case) x 2 hosts with sizes 0..limit, limits 0..64 KiB, time limits {0,1,60}, issued by 1..8 simulated threads through the real RwLock<Cache> (write lock for set, read lock for get, as the handlers do) under a seeded schedule, with wall-clock jumps landing just before / on / after second boundaries and age limits; every operation is stamped with a sequence number taken while the lock is held, which gives the linearisation order. One case in eight instead drives the real file_handler / directory_handler with a cache-enabled AppState over real files rewritten between requests: two file routes with the same uri on two hosts, two directory routes holding files with the same relative names and an index file each, and a file route whose uri equals a relative name inside the directories; 1..6 threads request concurrently, and sweeps look every (uri, host) up under one read lock and add the sizes up (also once after the last request). Distinct = distinct hit/miss/set/sweep pattern; non-trivial = at least three operations."
     }
     fn assumptions(&self) -> Vec<String> {
         vec![
